@@ -111,5 +111,7 @@ func (Keeper).GetParams
     ensures result.EnableErc20 == e20_enable && result.EnableEVMHook == e20_hook
 func (Keeper).SetParams
     modifies e20_enable, e20_hook
+    // Params.Validate only type-checks two bool fields and cannot fail: the early `return err` is dead code
+    unreachable return2
     ensures result == nil && e20_enable == params.EnableErc20 && e20_hook == params.EnableEVMHook
 @*/
